@@ -297,7 +297,7 @@ pub fn run_line(line: &str) -> String {
             match type_check(&[("main.rssl".to_string(), injected.clone())], None, false) {
                 Err(p) => format!("PANIC {}", p.lines().next().unwrap_or("")),
                 Ok(Err(e)) => format!("REJECTED {}", e.lines().next().unwrap_or("")),
-                Ok(Ok(_)) => format!("ACCEPTED {}", injected.lines().rev().take(12).collect::<Vec<_>>().into_iter().rev().collect::<Vec<_>>().join("\\n")),
+                Ok(Ok(_)) => format!("ACCEPTED {}", injected.lines().rev().take(12).collect::<Vec<_>>().into_iter().rev().collect::<Vec<_>>().join("\n")),
             }
         }
         _ => "BAD-CASE".into(),
@@ -307,7 +307,7 @@ pub fn run_line(line: &str) -> String {
 pub const VIOLATIONS: &[&str] = &["const-write", "const-compound", "const-incr", "rvalue-write", "rvalue-incr", "call-write", "literal-write", "out-rvalue", "out-const", "inout-literal", "arity-more", "arity-less",
     "arg-struct", "arg-void", "ret-struct", "ret-void-value", "ret-missing-value", "init-struct", "cond-struct", "binop-struct", "member-missing", "undeclared", "const-member-write", "const-param-write", "const-array-write",
     "swizzle-repeat-write", "cbuffer-write", "static-const-global-write", "out-other-scalar", "out-other-vector", "inout-other-vector", "out-wider-vector", "out-member-of-const", "out-swizzle-repeat",
-    "out-enum-for-int", "index-struct", "call-non-function", "ternary-mismatch", "enum-from-int", "void-var", "unknown-type"];
+    "out-enum-for-int", "const-nested-member-write", "const-nested-array-write", "const-nested-incr", "out-nested-member-of-const", "cbuffer-nested-write", "const-array-of-struct-write", "index-struct", "call-non-function", "ternary-mismatch", "enum-from-int", "void-var", "unknown-type"];
 
 /// Append to the program a function that is well-typed except for one violation.
 fn inject(base: &str, kind: &str, seed: u64) -> Option<String> {
@@ -337,6 +337,13 @@ fn inject(base: &str, kind: &str, seed: u64) -> Option<String> {
         "member-missing" => format!("ZS{u} s; int a = s.nope;"),
         "undeclared" => format!("int a = zundeclared{u};"),
         "const-member-write" => format!("const ZS{u} s = (ZS{u})0; s.a = 1;"),
+        // two or more steps below a const object: the member's own type carries no const
+        "const-nested-member-write" => return Some(format!("{}\n{}struct ZI{u} {{ int value; int table[2]; }};\nstruct ZO{u} {{ ZI{u} inner; }};\nvoid zbad{u}() {{ const ZO{u} o = (ZO{u})0; o.inner.value = 1; }}\n", base, pre)),
+        "const-nested-array-write" => return Some(format!("{}\n{}struct ZI{u} {{ int value; int table[2]; }};\nstruct ZO{u} {{ ZI{u} inner; }};\nvoid zbad{u}() {{ const ZO{u} o = (ZO{u})0; o.inner.table[1] = 1; }}\n", base, pre)),
+        "const-nested-incr" => return Some(format!("{}\n{}struct ZI{u} {{ int value; int table[2]; }};\nstruct ZO{u} {{ ZI{u} inner; }};\nvoid zbad{u}() {{ const ZO{u} o = (ZO{u})0; ++o.inner.value; }}\n", base, pre)),
+        "out-nested-member-of-const" => return Some(format!("{}\n{}struct ZI{u} {{ int value; int table[2]; }};\nstruct ZO{u} {{ ZI{u} inner; }};\nvoid zbad{u}() {{ const ZO{u} o = (ZO{u})0; zoi{u}(o.inner.value); }}\n", base, pre)),
+        "cbuffer-nested-write" => return Some(format!("{}\n{}struct ZI{u} {{ int value; int table[2]; }};\nstruct ZO{u} {{ ZI{u} inner; }};\ncbuffer ZCN{u} {{ ZO{u} zcn{u}; }}\nvoid zbad{u}() {{ zcn{u}.inner.value = 2; }}\n", base, pre)),
+        "const-array-of-struct-write" => format!("const ZS{u} arr[2] = {{ (ZS{u})0, (ZS{u})0 }}; arr[1].b.x = 3.0;"),
         "const-param-write" => return Some(format!("{}\n{}int zbad{u}(const int p) {{ p = 2; return p; }}\n", base, pre)),
         "const-array-write" => "const int arr[2] = { 1, 2 }; arr[0] = 3;".to_string(),
         "swizzle-repeat-write" => "float2 v = float2(1, 2); v.xx = float2(3, 4);".to_string(),
